@@ -26,10 +26,10 @@ PKGS=$(for d in $DEMOS; do dirname $d; done | sort -u)
 for p in $PKGS; do
   names=$(grep -ho "^func Test[A-Za-z0-9_]*" $(for d in $DEMOS; do [ "$(dirname $d)" = "$p" ] && echo $W/$d; done) | sed 's/func //' | paste -sd'|')
   echo "== demo WITH change: go test -run '$names' $p"
-  go test -vet=off -count=1 -run "^($names)\$" $p 2>&1 | tail -5; WITH=${PIPESTATUS[0]}
+  go test -vet=off -count=1 -tags verif -run "^($names)\$" $p 2>&1 | tail -5; WITH=${PIPESTATUS[0]}
   git apply -R $SRC/_seed/patch.diff
   echo "== demo WITHOUT change"
-  go test -vet=off -count=1 -run "^($names)\$" $p 2>&1 | tail -3; WITHOUT=${PIPESTATUS[0]}
+  go test -vet=off -count=1 -tags verif -run "^($names)\$" $p 2>&1 | tail -3; WITHOUT=${PIPESTATUS[0]}
   git apply $SRC/_seed/patch.diff
   echo "with rc=$WITH without rc=$WITHOUT"
 done
